@@ -16,6 +16,8 @@ lines, each answered `ok`, and decided by `validate`:
   dns name=.. type=.. addr=0/1 tc=.. uc=..
   router dt=.. du=.. ds=a,b ps=a,b
   route name=.. net=.. client=.. res=.. fs=a,b fps=.. td=0/1 tds=.. tp=0/1 tps=.. tmp=0/1 tmps=.. fg=0/1 tg=0/1 tmg=0/1 nores=0/1
+  api en=0/1 pprof=0/1 static=0/1 secret=none|plain|wild|bad ;  apil tls=0/1 cert=0/1 cas=0/1  (API listener)
+  route also: fu=a,b (fromUsers) fp=1,2 (fromPorts) fr=80,1-5,x (fromPortRanges items) tp2=.. tr=.. (toPorts / toPortRanges)
   validate            -> `err <class>` | `ok <effective configuration>`
   migrate             -> replaces the configuration by `Config.migrate` of it, answers `ok`
   decodes             -> `1` | `0`
@@ -67,8 +69,26 @@ def clientOf (kv : KV) : Client :=
     s5auth := getB kv "s5", s5userLen := getN kv "s5u", s5passLen := getN kv "s5p",
     pskLen := getN kv "psk", ipskLens := getNL kv "ipsk", padding := getP kv "pad", filterSize := getN kv "fs" }
 
+def portItemOf (s : String) : PortItem :=
+  match s.splitOn "-" with
+  | [a] => match a.toNat? with
+    | some p => .single p
+    | none => .junk
+  | [a, b] => match a.toNat?, b.toNat? with
+    | some lo, some hi => .range lo hi
+    | _, _ => .junk
+  | _ => .junk
+
+def getItems (kv : KV) (k : String) : List PortItem :=
+  let v := getRaw kv k
+  if v = "" then [] else (v.splitOn ",").map portItemOf
+
+def secretOf (s : String) : Secret :=
+  if s = "plain" then .plain else if s = "wild" then .wildcard else if s = "bad" then .malformed else .none
+
 def routeOf (kv : KV) : Route :=
-  { name := getS kv "name", network := getS kv "net", client := getS kv "client", resolver := getS kv "res",
+  { name := getS kv "name", fromUsers := getL kv "fu", fromPorts := getNL kv "fp", fromRanges := getItems kv "fr",
+    toPorts := getNL kv "tp2", toRanges := getItems kv "tr", network := getS kv "net", client := getS kv "client", resolver := getS kv "res",
     fromServers := getL kv "fs", fromPrefixSets := getL kv "fps", toDomains := getB kv "td", toDomainSets := getL kv "tds",
     toPrefixes := getB kv "tp", toPrefixSets := getL kv "tps", toMatchedPrefixes := getB kv "tmp",
     toMatchedPrefixSets := getL kv "tmps", fromGeo := getB kv "fg", toGeo := getB kv "tg", toMatchedGeo := getB kv "tmg",
@@ -89,7 +109,7 @@ def showClient (c : EffClient) : String :=
   s!"{c.name}/{c.network}/{if c.tcp then 1 else 0}{if c.udp then 1 else 0}/{optS c.padding}/{optN c.filterSize}"
 
 def showEff (e : Eff) : String :=
-  s!"ok S[{" ".intercalate (e.servers.map showServer)}] C[{" ".intercalate (e.clients.map showClient)}]"
+  s!"ok S[{" ".intercalate (e.servers.map showServer)}] C[{" ".intercalate (e.clients.map showClient)}] R[{" ".intercalate (e.routes.map fun p => s!"{p.1}/{p.2}")}]"
 
 def stepC18 (c : Config) (line : String) : Config × String :=
   match fields line with
@@ -118,6 +138,14 @@ def stepC18 (c : Config) (line : String) : Config × String :=
     ({ c with router := { c.router with defaultTCP := getS kv "dt", defaultUDP := getS kv "du",
                                         domainSets := getL kv "ds", prefixSets := getL kv "ps" } }, "ok")
   | "route" :: fs => ({ c with router := { c.router with routes := c.router.routes ++ [routeOf (parseKV fs)] } }, "ok")
+  | "api" :: fs =>
+    let kv := parseKV fs
+    ({ c with api := { c.api with enabled := getB kv "en", pprof := getB kv "pprof", static := getB kv "static",
+                                  secret := secretOf (getRaw kv "secret") } }, "ok")
+  | "apil" :: fs =>
+    let kv := parseKV fs
+    ({ c with api := { c.api with listeners := c.api.listeners ++
+        [{ tls := getB kv "tls", certList := getB kv "cert", clientCAs := getB kv "cas" }] } }, "ok")
   | ["migrate"] => (c.migrate, "ok")
   | ["decodes"] => (c, if c.decodes then "1" else "0")
   | ["validate"] =>
